@@ -47,3 +47,6 @@ pub mod c08_concurrent;
 pub mod c16_tokens;
 pub mod c18_tasks;
 pub mod c07_pools;
+pub mod c03_blobstore;
+pub mod c09_intvec;
+pub mod c19_files;
